@@ -22,9 +22,14 @@ tvars == <<vars, tid, l, verdict>>
 Tr == Traces[tid].log
 
 \* recorded events are arrays <<e, t, id, o, a, v, cls, old, res, ip>>; ip = <<-1>> leaves the view unconstrained
+\* A recorded field may be the wildcard (-7, or <<-7>> for the OLD values): passively recorded executions of the
+\* repository's own tests do not know which abstract objects a condition received.
+W == 0 - 7
 Match(m, r) ==
-  /\ m.e = r[1] /\ m.t = r[2] /\ m.id = r[3] /\ m.o = r[4] /\ m.a = r[5]
-  /\ m.v = r[6] /\ m.cls = r[7] /\ m.old = r[8] /\ m.res = r[9]
+  /\ m.e = r[1] /\ m.t = r[2] /\ m.id = r[3]
+  /\ (r[4] = W \/ m.o = r[4]) /\ (r[5] = W \/ m.a = r[5])
+  /\ (r[6] = W \/ m.v = r[6]) /\ m.cls = r[7]
+  /\ (r[8] = <<W>> \/ m.old = r[8]) /\ (r[9] = W \/ m.res = r[9])
   /\ (r[10] = <<-1>> \/ m.ip = {r[10][n] : n \in DOMAIN r[10]})
 
 \* context of a mismatch, for attribution
